@@ -177,8 +177,8 @@ class uamiv(PseudoNetCDFFile):
 
         if self.name == 'EMISSIONS ':
             # Special case of gridded emissions
-            # Seems to be same as avrg
-            self.nlayers = 1
+            # Seems to be same as avrg; older files write nz = 0
+            self.nlayers = max(self.nz, 1)
         else:
             self.nlayers = self.nz
         self.ione, ione, nx, ny = self.rffile.read(self.cell_hdr_fmt)
